@@ -12,6 +12,7 @@ MC_MaxPid == Scn.maxpid
 MC_MaxFuel == Scn.maxfuel
 MC_Placement == Scn.placement
 MC_Defects == {Scn.defects[i] : i \in 1..Len(Scn.defects)}
+MC_Lines == IF "lines" \in DOMAIN Scn THEN Scn.lines ELSE <<1>>
 MC_IOModes == IF "iomodes" \in DOMAIN Scn THEN {Scn.iomodes[i] : i \in 1..Len(Scn.iomodes)} ELSE {"now"}
 
 \* pass 1 (simulation): stop at the first quiescent state and write its canonical results
